@@ -97,6 +97,7 @@ impl Property for C12 {
             ("type:PublicKeyPackage-legacy".into(), m),
             ("type:refresh-round1-Package".into(), m),
             ("vss-commitment:single-entry".into(), m),
+            ("json:member-removed".into(), m),
             ("bytes:catalogue".into(), 6),
             ("bytes:random".into(), m),
             ("bytes:bitflip".into(), m),
@@ -153,10 +154,37 @@ macro_rules! rt_pkg {
         }
         match serde_json::to_string(v) {
             Ok(s) => match json_all_routes::<$T>(&s) {
-                Ok(v2) => ensure!($ctx, v2 == *v, "C12/json-roundtrip-changes-value", "{}: decode(encode(v)) != v (JSON)", $name),
+                // equality by the library's PartialEq AND by the binary encodings (a PartialEq that overlooks a field must not hide a lost field)
+                Ok(v2) => ensure!($ctx, v2 == *v && v2.serialize().ok() == v.serialize().ok(), "C12/json-roundtrip-changes-value", "{}: decode(encode(v)) != v (JSON)", $name),
                 Err(e) => $ctx.fail("C12/own-encoding-rejected", format!("{}: JSON encoding of a real value does not decode: {e}: {s}", $name))?,
             },
             Err(e) => $ctx.fail("C12/value-does-not-encode", format!("{}: real value does not encode as JSON: {e}", $name))?,
+        }
+        // a JSON document that lacks a member (top level, or inside the header) is not an encoding of the type:
+        // it is rejected. Only `min_signers` of the public key package is documented as optional (pre-3.0 form).
+        if let Ok(serde_json::Value::Object(doc)) = serde_json::to_value(v) {
+            for key in doc.keys() {
+                if key == "min_signers" && $name.starts_with("PublicKeyPackage") {
+                    continue;
+                }
+                let mut d2 = doc.clone();
+                d2.remove(key);
+                $ctx.label("json:member-removed");
+                let r = serde_json::from_value::<$T>(serde_json::Value::Object(d2.clone()));
+                ensure!($ctx, r.is_err(), "C12/json-missing-member-accepted", "{}: a JSON document without the member '{}' was accepted", $name, key);
+                let r = serde_json::from_str::<$T>(&serde_json::Value::Object(d2).to_string());
+                ensure!($ctx, r.is_err(), "C12/json-missing-member-accepted", "{}: a JSON text without the member '{}' was accepted", $name, key);
+            }
+            if let Some(serde_json::Value::Object(h)) = doc.get("header") {
+                for key in h.keys() {
+                    let mut h2 = h.clone();
+                    h2.remove(key);
+                    let mut d2 = doc.clone();
+                    d2.insert("header".into(), serde_json::Value::Object(h2));
+                    let r = serde_json::from_value::<$T>(serde_json::Value::Object(d2));
+                    ensure!($ctx, r.is_err(), "C12/json-missing-member-accepted", "{}: a JSON document whose header lacks '{}' was accepted", $name, key);
+                }
+            }
         }
     }};
 }
